@@ -2,6 +2,7 @@
 //! `alpha_g_detector` / `alpha_g_physics` crates (compiled from /repo's working tree).
 
 mod boards;
+mod c01;
 mod c03;
 mod c04;
 mod c07;
@@ -14,7 +15,7 @@ mod pwbview;
 use simcore::Check;
 
 fn main() {
-    let checks: Vec<&'static dyn Check> = vec![&c03::C03, &c04::C04, &c07::C07, &c20::C20, &c19::C19];
+    let checks: Vec<&'static dyn Check> = vec![&c03::C03, &c04::C04, &c07::C07, &c20::C20, &c19::C19, &c01::C01];
     let code = simcore::driver::main_entry(&checks);
     std::process::exit(code);
 }
